@@ -62,8 +62,9 @@ def step_sig(hist, ej):
             return "req:body-over-limit:%s:function-invoked" % q["body"]
         st = ob.get("st")
         st = "code" if st == q.get("code") and q["beh"] in ("status", "wrap") else st
-        return "req:%s:%s:%s:%s:st=%s:inv=%d:body=%s" % (where, q["m"], "body" if q["body"] != "none" else "nobody", q["beh"], st,
-                                                        len(inv), ob.get("body"))
+        rl = ":rl=%s" % ob.get("rl") if ob.get("rl") not in ("na", "held", None) else ""
+        return "req:%s:%s:%s:%s:st=%s:inv=%d:body=%s%s" % (where, q["m"], "body" if q["body"] != "none" else "nobody", q["beh"], st,
+                                                          len(inv), ob.get("body"), rl)
     return "%s" % e
 
 
